@@ -117,9 +117,15 @@ def behCalls : Beh → Nat
 
 def launchCalls (st : Stage) : Nat := (st.sides.map sideCalls).sum + behCalls st.beh
 
-theorem launchCalls_le (st : Stage) : launchCalls st ≤ stageCalls st := by
+theorem calls_eq (st : Stage) : st.calls = st.sides.length + 1 + callsL st.cleanups := by
+  cases st; simp [Stage.calls, Stage.sides, Stage.cleanups]
+
+theorem size_eq (st : Stage) : st.size = 1 + sizeL st.cleanups := by
+  cases st; simp [Stage.size, Stage.cleanups]
+
+theorem launchCalls_le (st : Stage) : launchCalls st ≤ st.sides.length + 1 := by
   have := sides_sum_le st.sides
-  simp only [launchCalls, stageCalls]
+  simp only [launchCalls]
   cases st.beh <;> simp [behCalls] <;> omega
 
 theorem launch_reach (n : SName) (st : Stage) (w : W) : Reach (launchCalls st) w (launch n st w) := by
@@ -135,13 +141,13 @@ theorem launch_reach (n : SName) (st : Stage) (w : W) : Reach (launchCalls st) w
 theorem finishChain_reach (w : W) : Reach 0 w (finishChain w) :=
   Reach.upd Chain.finish (Reach.deliv _ (Reach.refl _))
 
-def stackCalls (stack : List (Nat × Stage)) : Nat := (stack.map fun ic => stageCalls ic.2).sum
+def stackCalls (stack : List (Nat × Stage)) : Nat := (stack.map fun ic => ic.2.calls).sum
 
 /-- what the chain may still schedule, by where it waits -/
 def rem (p : Prog) (c : Chain) : Nat :=
   match c.pos with
-  | .setUp => mstageCalls p.body + mstageCalls p.tearDown + stackCalls c.stack
-  | .body => mstageCalls p.tearDown + stackCalls c.stack
+  | .setUp => p.body.calls + p.tearDown.calls + stackCalls c.stack
+  | .body => p.tearDown.calls + stackCalls c.stack
   | .tearDown | .cleanup => stackCalls c.stack
   | _ => 0
 
@@ -196,159 +202,211 @@ theorem launch_frame (n : SName) (st : Stage) (w : W) :
   obtain ⟨h1, h2, h3, _⟩ := sidesC_frame st.sides (Chain.log n w.now w.u)
   exact ⟨h1, h2, h3⟩
 
-/-- `runCleanups` schedules at most what the stack allows, and ends at `done` or waits in `cleanup` -/
-theorem runCleanups_reach (p : Prog) : ∀ (stack : List (Nat × Stage)) (w : W),
-    ∃ k, Reach k w (runCleanups stack w) ∧ k + rem p (runCleanups stack w).u ≤ stackCalls stack
-  | [], w => by
-      refine ⟨0, ?_, ?_⟩
-      · simp only [runCleanups]
-        exact Reach.upd _ (finishChain_reach _)
-      · simp [runCleanups, rem, finishChain_u, Chain.finish_pos]
-  | (i, c) :: rest, w => by
-      have hl : Reach (launchCalls c) w (launch (.cleanup i) c (updU (fun u => { u with stack := rest }) w)) :=
-        Reach.upd _ (launch_reach _ _ _)
-      have hp := launch_frame (.cleanup i) c (updU (fun u => { u with stack := rest }) w)
-      have hle := launchCalls_le c
-      simp only [runCleanups]
-      cases hs : statusOf c.beh with
-      | completed r =>
-        simp only []
-        obtain ⟨k, hk, hk2⟩ := runCleanups_reach p rest
-          (updU (Chain.noteCleanup r) (launch (.cleanup i) c (updU (fun u => { u with stack := rest }) w)))
-        refine ⟨launchCalls c + k, hl.trans (Reach.upd _ hk), ?_⟩
-        simp only [stackCalls, List.map_cons, List.sum_cons] at hk2 ⊢
-        omega
-      | pending =>
-        simp only []
-        refine ⟨launchCalls c, (hl.trans (Reach.upd1 _ _)).cast (by simp), ?_⟩
-        simp only [rem, updU_u, hp.2.1, stackCalls, List.map_cons, List.sum_cons]
-        omega
-
-theorem register_stackCalls (cs : List Stage) (c : Chain) :
-    stackCalls (Chain.register cs c).stack = stackCalls c.stack + (cs.map stageCalls).sum := by
+theorem register_stack (cs : List Stage) (c : Chain) :
+    (Chain.register cs c).stack = (number c.nextCleanup cs).reverse ++ c.stack ∧
+    (Chain.register cs c).nextCleanup = c.nextCleanup + cs.length := by
   induction cs generalizing c with
-  | nil => simp [Chain.register]
+  | nil => simp [Chain.register, number]
   | cons s rest ih =>
     simp only [Chain.register, List.foldl_cons] at ih ⊢
-    rw [ih]
-    simp [stackCalls]
+    obtain ⟨h1, h2⟩ := ih { c with stack := (c.nextCleanup, s) :: c.stack, nextCleanup := c.nextCleanup + 1 }
+    rw [h1, h2]
+    simp [number]
     omega
+
+theorem stackCalls_number (i : Nat) (cs : List Stage) : stackCalls (number i cs) = callsL cs := by
+  induction cs generalizing i with
+  | nil => simp [number, stackCalls, callsL]
+  | cons c rest ih =>
+    have := ih (i + 1)
+    simp only [stackCalls] at this
+    simp [number, stackCalls, callsL, this]
+
+theorem stackSize_number (i : Nat) (cs : List Stage) : stackSize (number i cs) = sizeL cs := by
+  induction cs generalizing i with
+  | nil => simp [number, stackSize, sizeL]
+  | cons c rest ih =>
+    have := ih (i + 1)
+    simp only [stackSize] at this
+    simp [number, stackSize, sizeL, this]
+
+theorem stackCalls_append (a b : List (Nat × Stage)) : stackCalls (a ++ b) = stackCalls a + stackCalls b := by
+  simp [stackCalls]
+
+theorem stackSize_append (a b : List (Nat × Stage)) : stackSize (a ++ b) = stackSize a + stackSize b := by
+  simp [stackSize]
+
+theorem stackCalls_reverse (a : List (Nat × Stage)) : stackCalls a.reverse = stackCalls a := by
+  simp [stackCalls, List.sum_reverse]
+
+theorem stackSize_reverse (a : List (Nat × Stage)) : stackSize a.reverse = stackSize a := by
+  simp [stackSize, List.sum_reverse]
+
+theorem register_stackCalls (cs : List Stage) (c : Chain) :
+    stackCalls (Chain.register cs c).stack = stackCalls c.stack + callsL cs := by
+  rw [(register_stack cs c).1, stackCalls_append, stackCalls_reverse, stackCalls_number]; omega
+
+theorem register_stackSize (cs : List Stage) (c : Chain) :
+    stackSize (Chain.register cs c).stack = stackSize c.stack + sizeL cs := by
+  rw [(register_stack cs c).1, stackSize_append, stackSize_reverse, stackSize_number]; omega
 
 theorem register_pos (cs : List Stage) (c : Chain) : (Chain.register cs c).pos = c.pos := by
   induction cs generalizing c with
   | nil => rfl
   | cons s rest ih => simp only [Chain.register, List.foldl_cons] at ih ⊢; rw [ih]
 
-theorem noteMain_stack (r : Option Exc) (c : Chain) : (Chain.noteMain r c).stack = c.stack := by
-  cases r <;> rfl
+theorem noteMain_stack (r : Option Exc) (c : Chain) : (Chain.noteMain r c).stack = c.stack ∧
+    (Chain.noteMain r c).nextCleanup = c.nextCleanup := by
+  cases r <;> exact ⟨rfl, rfl⟩
 
-theorem noteCleanup_stack (r : Option Exc) (c : Chain) : (Chain.noteCleanup r c).stack = c.stack := by
-  cases r <;> rfl
+theorem noteCleanup_stack (r : Option Exc) (c : Chain) : (Chain.noteCleanup r c).stack = c.stack ∧
+    (Chain.noteCleanup r c).nextCleanup = c.nextCleanup := by
+  cases r <;> exact ⟨rfl, rfl⟩
+
+/-- `runCleanups` schedules at most what the stack allows, and ends at `done` or waits in `cleanup` -/
+theorem runCleanups_reach (p : Prog) : ∀ (n : Nat) (w : W), stackSize w.u.stack < n →
+    ∃ k, Reach k w (runCleanups n w) ∧ k + rem p (runCleanups n w).u ≤ stackCalls w.u.stack
+  | 0, _, h => by omega
+  | n + 1, w, hn => by
+      unfold runCleanups
+      split
+      · exact ⟨0, finishChain_reach _, by simp [rem, finishChain_u, Chain.finish_pos]⟩
+      · rename_i i c rest hst
+        obtain ⟨w1, hw1⟩ : ∃ w1 : W, w1 = updU (fun u => Chain.register c.cleanups { u with stack := rest }) w := ⟨_, rfl⟩
+        have hs1 : stackCalls w1.u.stack = stackCalls rest + callsL c.cleanups := by
+          rw [hw1]; exact register_stackCalls c.cleanups _
+        have hz1 : stackSize w1.u.stack = stackSize rest + sizeL c.cleanups := by
+          rw [hw1]; exact register_stackSize c.cleanups _
+        have hl : Reach (launchCalls c) w (launch (.cleanup i) c w1) := by
+          rw [hw1]
+          exact Reach.upd _ (launch_reach _ _ _) (by intro u; exact register_observers _ _)
+        have hp := launch_frame (.cleanup i) c w1
+        have hle := launchCalls_le c
+        have hc := calls_eq c
+        have hsz := size_eq c
+        have hstack : stackCalls w.u.stack = c.calls + stackCalls rest := by rw [hst]; simp [stackCalls]
+        have hsize : stackSize w.u.stack = c.size + stackSize rest := by rw [hst]; simp [stackSize]
+        simp only [← hw1]
+        cases hs : statusOf c.beh with
+        | completed r =>
+          simp only []
+          obtain ⟨k, hk, hk2⟩ := runCleanups_reach p n (updU (Chain.noteCleanup r) (launch (.cleanup i) c w1))
+            (by simp only [updU_u, (noteCleanup_stack _ _).1, hp.2.1]; omega)
+          refine ⟨launchCalls c + k, hl.trans (Reach.upd _ hk), ?_⟩
+          simp only [updU_u, (noteCleanup_stack _ _).1, hp.2.1] at hk2
+          omega
+        | pending =>
+          simp only []
+          refine ⟨launchCalls c, (hl.trans (Reach.upd1 _ _)).cast (by simp), ?_⟩
+          simp only [rem, updU_u, hp.2.1]
+          omega
+
+theorem cleanUp_reach (p : Prog) (w : W) :
+    ∃ k, Reach k w (cleanUp w) ∧ k + rem p (cleanUp w).u ≤ stackCalls w.u.stack :=
+  runCleanups_reach p _ w (Nat.lt_succ_self _)
 
 theorem afterCleanup_reach (p : Prog) (r : Option Exc) (w : W) :
     ∃ k, Reach k w (afterCleanup r w) ∧ k + rem p (afterCleanup r w).u ≤ stackCalls w.u.stack := by
-  obtain ⟨k, hk, hk2⟩ := runCleanups_reach p (updU (Chain.noteCleanup r) w).u.stack (updU (Chain.noteCleanup r) w)
+  obtain ⟨k, hk, hk2⟩ := cleanUp_reach p (updU (Chain.noteCleanup r) w)
   refine ⟨k, Reach.upd _ hk, ?_⟩
-  simpa [afterCleanup, noteCleanup_stack] using hk2
+  simpa [afterCleanup, (noteCleanup_stack _ _).1] using hk2
 
 theorem afterTearDown_reach (p : Prog) (r : Option Exc) (w : W) :
     ∃ k, Reach k w (afterTearDown r w) ∧ k + rem p (afterTearDown r w).u ≤ stackCalls w.u.stack := by
-  obtain ⟨k, hk, hk2⟩ := runCleanups_reach p (updU (Chain.noteMain r) w).u.stack (updU (Chain.noteMain r) w)
+  obtain ⟨k, hk, hk2⟩ := cleanUp_reach p (updU (Chain.noteMain r) w)
   refine ⟨k, Reach.upd _ hk, ?_⟩
-  simpa [afterTearDown, noteMain_stack] using hk2
+  simpa [afterTearDown, (noteMain_stack _ _).1] using hk2
 
 theorem startTearDown_reach (p : Prog) (w : W) :
-    ∃ k, Reach k w (startTearDown p w) ∧ k + rem p (startTearDown p w).u ≤ mstageCalls p.tearDown + stackCalls w.u.stack := by
-  have hl : Reach (launchCalls p.tearDown.stage) w
-      (launch .tearDown p.tearDown.stage (updU (Chain.register p.tearDown.cleanups) w)) :=
+    ∃ k, Reach k w (startTearDown p w) ∧ k + rem p (startTearDown p w).u ≤ p.tearDown.calls + stackCalls w.u.stack := by
+  have hl : Reach (launchCalls p.tearDown) w
+      (launch .tearDown p.tearDown (updU (Chain.register p.tearDown.cleanups) w)) :=
     Reach.upd _ (launch_reach _ _ _)
-  have hp := launch_frame .tearDown p.tearDown.stage (updU (Chain.register p.tearDown.cleanups) w)
-  have hle := launchCalls_le p.tearDown.stage
+  have hp := launch_frame .tearDown p.tearDown (updU (Chain.register p.tearDown.cleanups) w)
+  have hle := launchCalls_le p.tearDown
   have hreg := register_stackCalls p.tearDown.cleanups w.u
+  have hm := calls_eq p.tearDown
   simp only [startTearDown]
-  cases hs : statusOf p.tearDown.stage.beh with
+  cases hs : statusOf p.tearDown.beh with
   | completed r =>
     simp only []
     obtain ⟨k, hk, hk2⟩ := afterTearDown_reach p r
-      (launch .tearDown p.tearDown.stage (updU (Chain.register p.tearDown.cleanups) w))
-    refine ⟨launchCalls p.tearDown.stage + k, hl.trans hk, ?_⟩
+      (launch .tearDown p.tearDown (updU (Chain.register p.tearDown.cleanups) w))
+    refine ⟨launchCalls p.tearDown + k, hl.trans hk, ?_⟩
     rw [hp.2.1] at hk2
     simp only [updU_u, hreg] at hk2
-    simp only [mstageCalls]
     omega
   | pending =>
     simp only []
-    refine ⟨launchCalls p.tearDown.stage, (hl.trans (Reach.upd1 _ _)).cast (by simp), ?_⟩
-    simp only [rem, updU_u, hp.2.1, hreg, mstageCalls]
+    refine ⟨launchCalls p.tearDown, (hl.trans (Reach.upd1 _ _)).cast (by simp), ?_⟩
+    simp only [rem, updU_u, hp.2.1, hreg]
     omega
 
 theorem afterBody_reach (p : Prog) (r : Option Exc) (w : W) :
-    ∃ k, Reach k w (afterBody p r w) ∧ k + rem p (afterBody p r w).u ≤ mstageCalls p.tearDown + stackCalls w.u.stack := by
+    ∃ k, Reach k w (afterBody p r w) ∧ k + rem p (afterBody p r w).u ≤ p.tearDown.calls + stackCalls w.u.stack := by
   obtain ⟨k, hk, hk2⟩ := startTearDown_reach p (updU (Chain.noteMain r) w)
   refine ⟨k, Reach.upd _ hk, ?_⟩
-  simpa [afterBody, noteMain_stack] using hk2
+  simpa [afterBody, (noteMain_stack _ _).1] using hk2
 
 theorem startBody_reach (p : Prog) (w : W) :
     ∃ k, Reach k w (startBody p w) ∧
-      k + rem p (startBody p w).u ≤ mstageCalls p.body + mstageCalls p.tearDown + stackCalls w.u.stack := by
-  have hl : Reach (launchCalls p.body.stage) w
-      (launch .body p.body.stage (updU (Chain.register p.body.cleanups) w)) :=
+      k + rem p (startBody p w).u ≤ p.body.calls + p.tearDown.calls + stackCalls w.u.stack := by
+  have hl : Reach (launchCalls p.body) w
+      (launch .body p.body (updU (Chain.register p.body.cleanups) w)) :=
     Reach.upd _ (launch_reach _ _ _)
-  have hp := launch_frame .body p.body.stage (updU (Chain.register p.body.cleanups) w)
-  have hle := launchCalls_le p.body.stage
+  have hp := launch_frame .body p.body (updU (Chain.register p.body.cleanups) w)
+  have hle := launchCalls_le p.body
   have hreg := register_stackCalls p.body.cleanups w.u
+  have hm := calls_eq p.body
   simp only [startBody]
-  cases hs : statusOf p.body.stage.beh with
+  cases hs : statusOf p.body.beh with
   | completed r =>
     simp only []
-    obtain ⟨k, hk, hk2⟩ := afterBody_reach p r (launch .body p.body.stage (updU (Chain.register p.body.cleanups) w))
-    refine ⟨launchCalls p.body.stage + k, hl.trans hk, ?_⟩
+    obtain ⟨k, hk, hk2⟩ := afterBody_reach p r (launch .body p.body (updU (Chain.register p.body.cleanups) w))
+    refine ⟨launchCalls p.body + k, hl.trans hk, ?_⟩
     rw [hp.2.1] at hk2
     simp only [updU_u, hreg] at hk2
-    have hm : mstageCalls p.body = stageCalls p.body.stage + (p.body.cleanups.map stageCalls).sum := rfl
     omega
   | pending =>
     simp only []
-    refine ⟨launchCalls p.body.stage, (hl.trans (Reach.upd1 _ _)).cast (by simp), ?_⟩
-    have hm : mstageCalls p.body = stageCalls p.body.stage + (p.body.cleanups.map stageCalls).sum := rfl
+    refine ⟨launchCalls p.body, (hl.trans (Reach.upd1 _ _)).cast (by simp), ?_⟩
     simp only [rem, updU_u, hp.2.1, hreg]
     omega
 
 theorem afterSetUp_reach (p : Prog) (r : Option Exc) (w : W) :
     ∃ k, Reach k w (afterSetUp p r w) ∧
-      k + rem p (afterSetUp p r w).u ≤ mstageCalls p.body + mstageCalls p.tearDown + stackCalls w.u.stack := by
+      k + rem p (afterSetUp p r w).u ≤ p.body.calls + p.tearDown.calls + stackCalls w.u.stack := by
   cases r with
   | none => exact startBody_reach p w
   | some e =>
-    obtain ⟨k, hk, hk2⟩ := runCleanups_reach p (updU (Chain.caught e) w).u.stack (updU (Chain.caught e) w)
-    refine ⟨k, Reach.upd _ hk, ?_⟩
+    obtain ⟨k, hk, hk2⟩ := cleanUp_reach p (updU (Chain.caught e) w)
+    refine ⟨k, Reach.upd _ hk (by intro c; rfl), ?_⟩
     have hst : stackCalls (updU (Chain.caught e) w).u.stack = stackCalls w.u.stack := rfl
     simp only [afterSetUp]
     omega
 
 theorem startSetUp_reach (p : Prog) (w : W) :
     ∃ k, Reach k w (startSetUp p w) ∧
-      k + rem p (startSetUp p w).u ≤ mstageCalls p.setUp + mstageCalls p.body + mstageCalls p.tearDown + stackCalls w.u.stack := by
-  have hl : Reach (launchCalls p.setUp.stage) w
-      (launch .setUp p.setUp.stage (updU (Chain.register p.setUp.cleanups) w)) :=
+      k + rem p (startSetUp p w).u ≤ p.setUp.calls + p.body.calls + p.tearDown.calls + stackCalls w.u.stack := by
+  have hl : Reach (launchCalls p.setUp) w
+      (launch .setUp p.setUp (updU (Chain.register p.setUp.cleanups) w)) :=
     Reach.upd _ (launch_reach _ _ _)
-  have hp := launch_frame .setUp p.setUp.stage (updU (Chain.register p.setUp.cleanups) w)
-  have hle := launchCalls_le p.setUp.stage
+  have hp := launch_frame .setUp p.setUp (updU (Chain.register p.setUp.cleanups) w)
+  have hle := launchCalls_le p.setUp
   have hreg := register_stackCalls p.setUp.cleanups w.u
+  have hm := calls_eq p.setUp
   simp only [startSetUp]
-  cases hs : statusOf p.setUp.stage.beh with
+  cases hs : statusOf p.setUp.beh with
   | completed r =>
     simp only []
-    obtain ⟨k, hk, hk2⟩ := afterSetUp_reach p r (launch .setUp p.setUp.stage (updU (Chain.register p.setUp.cleanups) w))
-    refine ⟨launchCalls p.setUp.stage + k, hl.trans hk, ?_⟩
+    obtain ⟨k, hk, hk2⟩ := afterSetUp_reach p r (launch .setUp p.setUp (updU (Chain.register p.setUp.cleanups) w))
+    refine ⟨launchCalls p.setUp + k, hl.trans hk, ?_⟩
     rw [hp.2.1] at hk2
     simp only [updU_u, hreg] at hk2
-    have hm : mstageCalls p.setUp = stageCalls p.setUp.stage + (p.setUp.cleanups.map stageCalls).sum := rfl
     omega
   | pending =>
     simp only []
-    refine ⟨launchCalls p.setUp.stage, (hl.trans (Reach.upd1 _ _)).cast (by simp), ?_⟩
-    have hm : mstageCalls p.setUp = stageCalls p.setUp.stage + (p.setUp.cleanups.map stageCalls).sum := rfl
+    refine ⟨launchCalls p.setUp, (hl.trans (Reach.upd1 _ _)).cast (by simp), ?_⟩
     simp only [rem, updU_u, hp.2.1, hreg]
     omega
 
@@ -796,19 +854,7 @@ theorem seqOk_append_path : ∀ (pre fut : List (SName × Stage)) (log : List (S
       | none => simp [seqOk, overAt, ih.2]
       | some e1 => simp only [List.cons_append, seqOk, overAt, ih.1, ih.2, and_self]
 
-/-! ### registering cleanups -/
-
-theorem register_stack (cs : List Stage) (c : Chain) :
-    (Chain.register cs c).stack = (number c.nextCleanup cs).reverse ++ c.stack ∧
-    (Chain.register cs c).nextCleanup = c.nextCleanup + cs.length := by
-  induction cs generalizing c with
-  | nil => simp [Chain.register, number]
-  | cons s rest ih =>
-    simp only [Chain.register, List.foldl_cons] at ih ⊢
-    obtain ⟨h1, h2⟩ := ih { c with stack := (c.nextCleanup, s) :: c.stack, nextCleanup := c.nextCleanup + 1 }
-    rw [h1, h2]
-    simp [number]
-    omega
+/-! ### registering cleanups, and the order in which they run -/
 
 /-- what `register` does to the stack only depends on the stack and the counter -/
 theorem register_congr (cs : List Stage) (c c' : Chain) (h1 : c.stack = c'.stack) (h2 : c.nextCleanup = c'.nextCleanup) :
@@ -817,48 +863,58 @@ theorem register_congr (cs : List Stage) (c c' : Chain) (h1 : c.stack = c'.stack
   rw [(register_stack cs c).1, (register_stack cs c).2, (register_stack cs c').1, (register_stack cs c').2, h1, h2]
   exact ⟨rfl, rfl⟩
 
-theorem number_append : ∀ (i : Nat) (a b : List Stage), number i (a ++ b) = number i a ++ number (i + a.length) b
-  | _, [], b => by simp [number]
-  | i, x :: a, b => by
-      simp only [List.cons_append, number, number_append (i + 1) a b, List.length_cons]
-      have : i + 1 + a.length = i + (a.length + 1) := by omega
-      rw [this]
+/-- enough fuel is enough -/
+theorem expand_fuel : ∀ (n m next : Nat) (stack : List (Nat × Stage)), stackSize stack < n → stackSize stack < m →
+    expand n next stack = expand m next stack
+  | 0, _, _, _, h, _ => by omega
+  | _, 0, _, _, _, h => by omega
+  | n + 1, m + 1, next, [], _, _ => rfl
+  | n + 1, m + 1, next, (i, c) :: rest, hn, hm => by
+      have hsz := size_eq c
+      have h1 : stackSize ((number next c.cleanups).reverse ++ rest) = sizeL c.cleanups + stackSize rest := by
+        rw [stackSize_append, stackSize_reverse, stackSize_number]
+      have h2 : stackSize ((i, c) :: rest) = c.size + stackSize rest := by simp [stackSize]
+      simp only [expand]
+      rw [expand_fuel n m _ _ (by omega) (by omega)]
 
-def cleanupPath (stack : List (Nat × Stage)) : List (SName × Stage) := stack.map fun ic => (SName.cleanup ic.1, ic.2)
+/-- the cleanups still to run, from the chain state -/
+def cleanupsOf (c : Chain) : List (SName × Stage) := expand (stackSize c.stack + 1) c.nextCleanup c.stack
 
 /-- what the chain will still go through from where it waits -/
 def future (p : Prog) (c : Chain) : List (SName × Stage) :=
   match c.pos with
   | .setUp =>
-    if behOk p.setUp.stage.beh then
-      (SName.body, p.body.stage) :: (SName.tearDown, p.tearDown.stage) ::
-        cleanupPath (Chain.register p.tearDown.cleanups (Chain.register p.body.cleanups c)).stack
-    else cleanupPath c.stack
-  | .body => (SName.tearDown, p.tearDown.stage) :: cleanupPath (Chain.register p.tearDown.cleanups c).stack
-  | .tearDown | .cleanup => cleanupPath c.stack
+    if behOk p.setUp.beh then
+      (SName.body, p.body) :: (SName.tearDown, p.tearDown) ::
+        cleanupsOf (Chain.register p.tearDown.cleanups (Chain.register p.body.cleanups c))
+    else cleanupsOf c
+  | .body => (SName.tearDown, p.tearDown) :: cleanupsOf (Chain.register p.tearDown.cleanups c)
+  | .tearDown | .cleanup => cleanupsOf c
   | _ => []
+
+theorem cleanupsOf_congr (c c' : Chain) (h1 : c.stack = c'.stack) (h2 : c.nextCleanup = c'.nextCleanup) :
+    cleanupsOf c = cleanupsOf c' := by
+  simp only [cleanupsOf, h1, h2]
 
 /-- the path, seen from the start of `setUp` (cleanups of `setUp` registered on an empty stack) -/
 theorem path_eq (p : Prog) (c : Chain) (hs : c.stack = []) (hn : c.nextCleanup = 0) :
-    path p = (SName.setUp, p.setUp.stage) ::
-      (if behOk p.setUp.stage.beh then
-        (SName.body, p.body.stage) :: (SName.tearDown, p.tearDown.stage) ::
-          cleanupPath (Chain.register p.tearDown.cleanups
-            (Chain.register p.body.cleanups (Chain.register p.setUp.cleanups c))).stack
-       else cleanupPath (Chain.register p.setUp.cleanups c).stack) := by
-  simp only [path]
-  congr 1
+    path p = (SName.setUp, p.setUp) ::
+      (if behOk p.setUp.beh then
+        (SName.body, p.body) :: (SName.tearDown, p.tearDown) ::
+          cleanupsOf (Chain.register p.tearDown.cleanups
+            (Chain.register p.body.cleanups (Chain.register p.setUp.cleanups c)))
+       else cleanupsOf (Chain.register p.setUp.cleanups c)) := by
   have e1 := register_stack p.setUp.cleanups c
   rw [hs, hn] at e1
+  have e2 := register_stack p.body.cleanups (Chain.register p.setUp.cleanups c)
+  have e3 := register_stack p.tearDown.cleanups (Chain.register p.body.cleanups (Chain.register p.setUp.cleanups c))
+  simp only [path, cleanupsOf]
+  congr 1
   split
-  · have e2 := register_stack p.body.cleanups (Chain.register p.setUp.cleanups c)
-    have e3 := register_stack p.tearDown.cleanups (Chain.register p.body.cleanups (Chain.register p.setUp.cleanups c))
-    rw [e3.1, e2.1, e2.2, e1.1, e1.2]
-    simp only [List.cons_append, List.nil_append, cleanupPath, List.append_nil, Nat.zero_add, List.cons.injEq, true_and]
-    rw [number_append, number_append]
-    simp [List.reverse_append, Nat.zero_add]
-  · rw [e1.1]
-    simp [cleanupPath]
+  · rw [e3.1, e3.2, e2.1, e2.2, e1.1, e1.2]
+    simp
+  · rw [e1.1, e1.2]
+    simp
 
 /-! ## the chain invariant -/
 
@@ -919,6 +975,8 @@ structure Book (pre : List (SName × Stage)) (c : Chain) : Prop where
   dropped : c.dropped = 0 ↔ (sidesOf pre).contains .dropfailed = false
   excs : c.excs ≠ [] ↔ c.fails = true
   obs : ∀ e ∈ c.stages, e.2.2 = c.observers.length
+  kiMain : ∀ x ∈ pre, isMain x.1 = true → x.2.beh = .raise .ki → Exc.ki ∈ c.excs
+  kiSome : (Exc.ki ∈ c.excs ∨ c.lastExc = some .ki) → ∃ x ∈ pre, hasKI x.2.beh = true
 
 /-- the chain is executing (synchronously, at `now`): `pre` has run and is over, `fut` is still to come -/
 structure Run (p : Prog) (w : W) (pre fut : List (SName × Stage)) : Prop where
@@ -943,7 +1001,7 @@ structure Susp (p : Prog) (w : W) : Prop where
     path p = (pre ++ [(n, st)]) ++ future p w.u ∧
     (pre ++ [(n, st)]).length = w.u.stages.length ∧
     seqOk (pre ++ [(n, st)]) w.u.stages (some 0) = true ∧
-    isSync st.beh = false ∧ isPending w.u.pos = true ∧ (w.u.pos = .setUp → st = p.setUp.stage) ∧
+    isSync st.beh = false ∧ isPending w.u.pos = true ∧ (w.u.pos = .setUp → st = p.setUp) ∧
     sdOf w.calls = (match overAt (some 0) (pre ++ [(n, st)]) w.u.stages with
       | some over => [(over, resOf st.beh)]
       | none => []) ∧
@@ -1065,7 +1123,8 @@ theorem frame_pos (q : Pos) : Frame (fun u => { u with pos := q }) :=
 theorem book_frame {pre : List (SName × Stage)} {c : Chain} {g : Chain → Chain} (hg : Frame g) (h : Book pre c) :
     Book pre (g c) :=
   ⟨by rw [hg.forced]; exact h.forced, by rw [hg.logged]; exact h.logged, by rw [hg.dropped]; exact h.dropped,
-   by rw [hg.excs, hg.fails]; exact h.excs, by rw [hg.stages, hg.observers]; exact h.obs⟩
+   by rw [hg.excs, hg.fails]; exact h.excs, by rw [hg.stages, hg.observers]; exact h.obs,
+   by rw [hg.excs]; exact h.kiMain, by rw [hg.excs, hg.lastExc]; exact h.kiSome⟩
 
 theorem run_frame {p : Prog} {w : W} {pre fut : List (SName × Stage)} {g : Chain → Chain} (hg : Frame g)
     (h : Run p w pre fut) : Run p (updU g w) pre fut :=
@@ -1073,7 +1132,7 @@ theorem run_frame {p : Prog} {w : W} {pre fut : List (SName × Stage)} {g : Chai
    h.noSD, book_frame hg h.book, by simpa [hg.fails, hg.lastExc] using h.failsOk, h.unrec, h.tA, h.tB⟩
 
 /-- what noting the result of a completed stage may change -/
-structure NoteOK (r : Option Exc) (f : Chain → Chain) : Prop where
+structure NoteOK (r : Option Exc) (main : Bool) (f : Chain → Chain) : Prop where
   stages : ∀ c, (f c).stages = c.stages
   forced : ∀ c, (f c).forced = c.forced
   logged : ∀ c, (f c).logged = c.logged
@@ -1082,22 +1141,63 @@ structure NoteOK (r : Option Exc) (f : Chain → Chain) : Prop where
   excs : ∀ c, (c.excs ≠ [] ↔ c.fails = true) → ((f c).excs ≠ [] ↔ (f c).fails = true)
   fails : ∀ c, ((f c).fails = true ∨ (f c).lastExc.isSome = true) ↔
     (c.fails = true ∨ c.lastExc.isSome = true ∨ r.isSome = true)
+  mono : ∀ c e, e ∈ c.excs → e ∈ (f c).excs
+  kiMain : main = true → r = some .ki → ∀ c, Exc.ki ∈ (f c).excs
+  kiSome : ∀ c, (Exc.ki ∈ (f c).excs ∨ (f c).lastExc = some .ki) → (Exc.ki ∈ c.excs ∨ c.lastExc = some .ki ∨ r = some .ki)
 
-theorem noteOK_main (r : Option Exc) : NoteOK r (Chain.noteMain r) := by
+theorem noteOK_main (r : Option Exc) : NoteOK r true (Chain.noteMain r) := by
   cases r with
-  | none => exact ⟨fun _ => rfl, fun _ => rfl, fun _ => rfl, fun _ => rfl, fun _ => rfl, fun _ h => h, fun c => by simp [Chain.noteMain]⟩
+  | none =>
+    exact ⟨fun _ => rfl, fun _ => rfl, fun _ => rfl, fun _ => rfl, fun _ => rfl, fun _ h => h, (fun c => by simp [Chain.noteMain]),
+      fun _ _ h => h, (fun _ h => by cases h), (fun c h => by
+        rcases h with h | h
+        · exact Or.inl h
+        · exact Or.inr (Or.inl h))⟩
   | some k =>
-    refine ⟨fun _ => rfl, fun _ => rfl, fun _ => rfl, fun _ => rfl, fun _ => rfl, fun c _ => ?_, fun c => ?_⟩
+    refine ⟨fun _ => rfl, fun _ => rfl, fun _ => rfl, fun _ => rfl, fun _ => rfl, fun c _ => ?_, fun c => ?_,
+      fun c e h => ?_, fun _ h c => ?_, fun c h => ?_⟩
     · simp [Chain.noteMain, Chain.caught]
     · simp [Chain.noteMain, Chain.caught]
+    · simp [Chain.noteMain, Chain.caught, h]
+    · injection h with h; subst h; simp [Chain.noteMain, Chain.caught]
+    · simp only [Chain.noteMain, Chain.caught, List.mem_append, List.mem_singleton] at h
+      rcases h with (h | h) | h
+      · exact Or.inl h
+      · exact Or.inr (Or.inr (by rw [h]))
+      · exact Or.inr (Or.inl h)
 
-theorem noteOK_cleanup (r : Option Exc) : NoteOK r (Chain.noteCleanup r) := by
+theorem noteOK_cleanup (r : Option Exc) : NoteOK r false (Chain.noteCleanup r) := by
   cases r with
-  | none => exact ⟨fun _ => rfl, fun _ => rfl, fun _ => rfl, fun _ => rfl, fun _ => rfl, fun _ h => h, fun c => by simp [Chain.noteCleanup]⟩
+  | none =>
+    exact ⟨fun _ => rfl, fun _ => rfl, fun _ => rfl, fun _ => rfl, fun _ => rfl, fun _ h => h, (fun c => by simp [Chain.noteCleanup]),
+      fun _ _ h => h, (fun h => by cases h), (fun c h => by
+        rcases h with h | h
+        · exact Or.inl h
+        · exact Or.inr (Or.inl h))⟩
   | some k =>
-    refine ⟨fun _ => rfl, fun _ => rfl, fun _ => rfl, fun _ => rfl, fun _ => rfl, fun c h => ?_, fun c => ?_⟩
+    refine ⟨fun _ => rfl, fun _ => rfl, fun _ => rfl, fun _ => rfl, fun _ => rfl, fun c h => ?_, fun c => ?_,
+      fun c e h => h, (fun h => by cases h), fun c h => ?_⟩
     · simpa [Chain.noteCleanup] using h
     · simp [Chain.noteCleanup]
+    · simp only [Chain.noteCleanup] at h
+      rcases h with h | h
+      · exact Or.inl h
+      · exact Or.inr (Or.inr h)
+
+/-- the unclaimed-exception accounting after the result `r` of a stage of `pre` has been noted -/
+theorem ki_note {pre : List (SName × Stage)} {c : Chain} {r : Option Exc} {main : Bool} {f : Chain → Chain}
+    (hf : NoteOK r main f)
+    (hsome : (Exc.ki ∈ c.excs ∨ c.lastExc = some .ki ∨ r = some .ki) → ∃ x ∈ pre, hasKI x.2.beh = true)
+    (hmain : ∀ x ∈ pre, isMain x.1 = true → x.2.beh = .raise .ki → Exc.ki ∈ c.excs ∨ (main = true ∧ r = some .ki)) :
+    (∀ x ∈ pre, isMain x.1 = true → x.2.beh = .raise .ki → Exc.ki ∈ (f c).excs) ∧
+    ((Exc.ki ∈ (f c).excs ∨ (f c).lastExc = some .ki) → ∃ x ∈ pre, hasKI x.2.beh = true) := by
+  constructor
+  · intro x hx h1 h2
+    rcases hmain x hx h1 h2 with h | ⟨h3, h4⟩
+    · exact hf.mono c _ h
+    · exact hf.kiMain h3 h4 c
+  · intro h
+    exact hsome (hf.kiSome c h)
 
 theorem sidesOf_snoc (pre : List (SName × Stage)) (n : SName) (st : Stage) :
     sidesOf (pre ++ [(n, st)]) = sidesOf pre ++ st.sides := by
@@ -1109,11 +1209,14 @@ theorem contains_append (a b : List Side) (x : Side) : (a ++ b).contains x = (a.
   | cons y rest ih => simp [List.contains_cons, ih, Bool.or_assoc]
 
 /-- the accounting after a stage has been launched -/
-theorem book_launch {pre : List (SName × Stage)} {c : Chain} (n : SName) (st : Stage) (t : Nat) (h : Book pre c) :
-    Book (pre ++ [(n, st)]) (st.sides.foldl (fun c s => Chain.side s c) (Chain.log n t c)) := by
+theorem book_launch_core {pre : List (SName × Stage)} {c : Chain} (n : SName) (st : Stage) (t : Nat) (h : Book pre c) :
+    let c' := st.sides.foldl (fun c s => Chain.side s c) (Chain.log n t c)
+    c'.forced = (sidesOf (pre ++ [(n, st)])).contains .expect ∧ c'.logged = loggedLeft (sidesOf (pre ++ [(n, st)])) ∧
+    (c'.dropped = 0 ↔ (sidesOf (pre ++ [(n, st)])).contains .dropfailed = false) ∧ (c'.excs ≠ [] ↔ c'.fails = true) ∧
+    (∀ e ∈ c'.stages, e.2.2 = c'.observers.length) ∧ c'.excs = c.excs ∧ c'.lastExc = c.lastExc := by
   obtain ⟨f1, f2, f3, f4, f5, f6, f7, f8⟩ := sidesC_frame st.sides (Chain.log n t c)
   obtain ⟨b1, b2, b3⟩ := sidesC_book st.sides (Chain.log n t c)
-  refine ⟨?_, ?_, ?_, ?_, ?_⟩
+  refine ⟨?_, ?_, ?_, ?_, ?_, by rw [f4]; rfl, by rw [f6]; rfl⟩
   · rw [b1, sidesOf_snoc, contains_append]
     simp [Chain.log, h.forced]
   · rw [b2, sidesOf_snoc, loggedLeft_eq, List.foldl_append, ← loggedLeft_eq]
@@ -1128,6 +1231,22 @@ theorem book_launch {pre : List (SName × Stage)} {c : Chain} (n : SName) (st : 
     rcases he with he | rfl
     · exact h.obs e he
     · rfl
+
+/-- the accounting after a stage has been launched (its own exception, if any, not yet noted) -/
+theorem book_launch {pre : List (SName × Stage)} {c : Chain} (n : SName) (st : Stage) (t : Nat) (h : Book pre c)
+    (hnew : isMain n = true → st.beh = .raise .ki → Exc.ki ∈ c.excs) :
+    Book (pre ++ [(n, st)]) (st.sides.foldl (fun c s => Chain.side s c) (Chain.log n t c)) := by
+  obtain ⟨c1, c2, c3, c4, c5, c6, c7⟩ := book_launch_core n st t h
+  refine ⟨c1, c2, c3, c4, c5, ?_, ?_⟩
+  · rw [c6]
+    intro x hx h1 h2
+    rcases List.mem_append.mp hx with hx | hx
+    · exact h.kiMain x hx h1 h2
+    · simp only [List.mem_singleton] at hx; subst hx; exact hnew h1 h2
+  · rw [c6, c7]
+    intro hk
+    obtain ⟨x, hx, hx2⟩ := h.kiSome hk
+    exact ⟨x, List.mem_append_left _ hx, hx2⟩
 
 theorem launch_stages (n : SName) (st : Stage) (w : W) :
     (launch n st w).u.stages = w.u.stages ++ [(n, w.now, w.u.observers.length)] ∧
@@ -1144,10 +1263,12 @@ theorem allSyncL_snoc (pre : List (SName × Stage)) (n : SName) (st : Stage) :
 /-- a synchronous stage: launched, over, its result noted -/
 theorem launch_completed {p : Prog} {w : W} {pre fut : List (SName × Stage)} {n : SName} {st : Stage}
     (h : Run p w pre ((n, st) :: fut)) (r : Option Exc) (hs : statusOf st.beh = .completed r)
-    (f : Chain → Chain) (hf : NoteOK r f) : Run p (updU f (launch n st w)) (pre ++ [(n, st)]) fut := by
+    (f : Chain → Chain) {main : Bool} (hf : NoteOK r main f) (hmain : isMain n = main) :
+    Run p (updU f (launch n st w)) (pre ++ [(n, st)]) fut := by
   obtain ⟨l1, l2, l3, l4⟩ := launch_stages n st w
   obtain ⟨w1, w2, w3⟩ := launch_world n st w
-  have hsync : isSync st.beh = true ∧ delayOf st.beh = some 0 ∧ (r.isSome = true ↔ behOk st.beh = false) := by
+  have hsync : isSync st.beh = true ∧ delayOf st.beh = some 0 ∧ (r.isSome = true ↔ behOk st.beh = false) ∧
+      (∀ k, st.beh = .raise k ↔ r = some k) := by
     cases hb : st.beh <;> simp [statusOf, hb] at hs <;> subst hs <;> simp [isSync, delayOf, behOk]
   have hsnoc := seqOk_snoc pre w.u.stages (some 0) w.now w.now w.u.observers.length n st h.len h.seq h.over (Nat.le_refl _)
   refine ⟨by simp [h.path], ?_, ?_, ?_, ?_, ?_, ?_, ?_, ?_, ?_⟩
@@ -1158,10 +1279,26 @@ theorem launch_completed {p : Prog} {w : W} {pre fut : List (SName × Stage)} {n
   · simp only [updU_calls]
     rw [w3 h.noSD]
     cases hb : st.beh <;> simp [statusOf, hb] at hs <;> rfl
-  · have hb := book_launch n st w.now h.book
-    rw [← launch_u] at hb
-    exact ⟨by simp [hf.forced, hb.forced], by simp [hf.logged, hb.logged], by simp [hf.dropped, hb.dropped],
-      by simpa using hf.excs _ hb.excs, by simpa [hf.stages, hf.observers] using hb.obs⟩
+  · obtain ⟨c1, c2, c3, c4, c5, c6, c7⟩ := book_launch_core n st w.now h.book
+    rw [← launch_u] at c1 c2 c3 c4 c5 c6 c7
+    obtain ⟨k1, k2⟩ := ki_note (pre := pre ++ [(n, st)]) (c := (launch n st w).u) hf
+      (by
+        rw [c6, c7]
+        rintro (hk | hk | hk)
+        · obtain ⟨x, hx, hx2⟩ := h.book.kiSome (Or.inl hk); exact ⟨x, List.mem_append_left _ hx, hx2⟩
+        · obtain ⟨x, hx, hx2⟩ := h.book.kiSome (Or.inr hk); exact ⟨x, List.mem_append_left _ hx, hx2⟩
+        · refine ⟨(n, st), by simp, ?_⟩
+          have := (hsync.2.2.2 .ki).mpr hk
+          simp [hasKI, this])
+      (by
+        rw [c6]
+        intro x hx h1 h2
+        rcases List.mem_append.mp hx with hx | hx
+        · exact Or.inl (h.book.kiMain x hx h1 h2)
+        · simp only [List.mem_singleton] at hx; subst hx
+          exact Or.inr ⟨by rw [← hmain]; exact h1, (hsync.2.2.2 .ki).mp h2⟩)
+    exact ⟨by simp [hf.forced, c1], by simp [hf.logged, c2], by simp [hf.dropped, c3],
+      by simpa using hf.excs _ c4, by simpa [hf.stages, hf.observers] using c5, k1, k2⟩
   · simp only [updU_u]
     rw [hf.fails, l2, l3]
     constructor
@@ -1170,7 +1307,7 @@ theorem launch_completed {p : Prog} {w : W} {pre fut : List (SName × Stage)} {n
         exact ⟨x, List.mem_append_left _ hx, hx2⟩
       · obtain ⟨x, hx, hx2⟩ := h.failsOk.mp (Or.inr h1)
         exact ⟨x, List.mem_append_left _ hx, hx2⟩
-      · exact ⟨(n, st), by simp, hsync.2.2.mp h1⟩
+      · exact ⟨(n, st), by simp, hsync.2.2.1.mp h1⟩
     · rintro ⟨x, hx, hx2⟩
       rcases List.mem_append.mp hx with hx | hx
       · rcases h.failsOk.mpr ⟨x, hx, hx2⟩ with h1 | h1
@@ -1178,7 +1315,7 @@ theorem launch_completed {p : Prog} {w : W} {pre fut : List (SName × Stage)} {n
         · exact Or.inr (Or.inl h1)
       · simp only [List.mem_singleton] at hx
         subst hx
-        exact Or.inr (Or.inr (hsync.2.2.mpr hx2))
+        exact Or.inr (Or.inr (hsync.2.2.1.mpr hx2))
   · simp only [updU_sp, w2]; exact h.unrec
   · simp only [updU_sp, w2, updU_now, w1, allSyncL_snoc, hsync.1, Bool.and_true]; exact h.tA
   · simp only [updU_sp, w2, updU_now, w1, allSyncL_snoc, hsync.1, Bool.and_true]; exact h.tB
@@ -1202,7 +1339,8 @@ theorem launch_pending {p : Prog} {w : W} {pre fut : List (SName × Stage)} {n :
   obtain ⟨l1, l2, l3, l4⟩ := launch_stages n st w
   obtain ⟨w1, w2, w3⟩ := launch_world n st w
   have hsnoc := seqOk_snoc pre w.u.stages (some 0) w.now w.now w.u.observers.length n st h.len h.seq h.over (Nat.le_refl _)
-  have hb := book_launch n st w.now h.book
+  have hb := book_launch n st w.now h.book (by
+    intro _ h2; rw [h2] at hs; simp [statusOf] at hs)
   rw [← launch_u] at hb
   refine ⟨by simp [h.path], by simp [l1, h.len], by rw [l1]; exact hsnoc.1, ?_, ?_, ?_, hb, by rw [l2, l3]; exact h.failsOk,
     by rw [w2]; exact h.unrec⟩
@@ -1214,7 +1352,7 @@ theorem launch_pending {p : Prog} {w : W} {pre fut : List (SName × Stage)} {n :
 
 theorem susp_of_pend {p : Prog} {w : W} {pre fut : List (SName × Stage)} {n : SName} {st : Stage}
     (h : Pend p w pre n st fut) (g : Chain → Chain) (hg : Frame g) (hpos : isPending (g w.u).pos = true)
-    (hfut : fut = future p (g w.u)) (hsu : (g w.u).pos = .setUp → st = p.setUp.stage) : Susp p (updU g w) :=
+    (hfut : fut = future p (g w.u)) (hsu : (g w.u).pos = .setUp → st = p.setUp) : Susp p (updU g w) :=
   ⟨pre, n, st, by show path p = pre ++ [(n, st)] ++ future p (g w.u); rw [← hfut]; exact h.path, by simpa [hg.stages] using h.len, by simpa [hg.stages] using h.seq,
     h.async, hpos, hsu, by simpa [hg.stages] using h.sd, by simpa [hg.stages] using h.never, book_frame hg h.book,
     by simpa [hg.fails, hg.lastExc] using h.failsOk, h.unrec⟩
@@ -1227,6 +1365,16 @@ theorem finish_fields (c : Chain) :
     ((c.excs ≠ [] ↔ c.fails = true) → (c.finish.excs ≠ [] ↔ c.finish.fails = true)) := by
   unfold Chain.finish
   cases h1 : c.lastExc <;> cases h2 : c.forced <;> simp [h1, h2]
+
+theorem finish_ki (c : Chain) :
+    (∀ e ∈ c.excs, e ∈ c.finish.excs) ∧ (Exc.ki ∈ c.finish.excs → Exc.ki ∈ c.excs ∨ c.lastExc = some .ki) ∧
+    c.finish.lastExc = c.lastExc := by
+  refine ⟨?_, ?_, ?_⟩ <;> unfold Chain.finish <;> cases h1 : c.lastExc <;> cases h2 : c.forced <;> simp [h1, h2]
+  all_goals first
+    | (intro e h; exact Or.inl h)
+    | (intro h; rcases h with h | h
+       · exact Or.inl h
+       · exact Or.inr h.symm)
 
 theorem finishChain_fin {p : Prog} {w : W} {pre : List (SName × Stage)} (h : Run p w pre []) : Fin p (finishChain w) := by
   obtain ⟨f1, f2, f3, f4, f5, f6, f7, f8⟩ := finish_fields w.u
@@ -1242,8 +1390,13 @@ theorem finishChain_fin {p : Prog} {w : W} {pre : List (SName × Stage)} (h : Ru
   refine ⟨pre, by simpa using h.path, by rw [hu, f3]; exact h.len, by rw [hu, f3]; exact h.seq, hcalls, ?_, by rw [hu]; exact f7,
     by rw [hu]; exact hfails, ?_, ?_⟩
   · rw [hu]
+    obtain ⟨g1, g2, g3⟩ := finish_ki w.u
     exact ⟨by rw [f2]; exact h.book.forced, by rw [f4]; exact h.book.logged, by rw [f5]; exact h.book.dropped,
-      f8 h.book.excs, by rw [f3, f6]; exact h.book.obs⟩
+      f8 h.book.excs, by rw [f3, f6]; exact h.book.obs, fun x hx h1 h2 => g1 _ (h.book.kiMain x hx h1 h2),
+      fun hk => h.book.kiSome (by
+        rcases hk with hk | hk
+        · exact g2 hk
+        · rw [g3] at hk; exact Or.inr hk)⟩
   · intro b hb
     by_cases hp : w.sp.tcall = .pending
     · have hs : (finishChain w).sp.success = some (if w.u.finish.fails then 0 else 1) := by
@@ -1275,95 +1428,124 @@ theorem finishChain_fin {p : Prog} {w : W} {pre : List (SName × Stage)} (h : Ru
         injection h3 with h3
         omega
 
-theorem launch_stack (n : SName) (st : Stage) (w : W) : (launch n st w).u.stack = w.u.stack := (launch_frame n st w).2.1
+theorem launch_stack (n : SName) (st : Stage) (w : W) : (launch n st w).u.stack = w.u.stack ∧
+    (launch n st w).u.nextCleanup = w.u.nextCleanup := ⟨(launch_frame n st w).2.1, (launch_frame n st w).2.2⟩
 
-theorem runCleanups_cinv {p : Prog} : ∀ (stack : List (Nat × Stage)) (w : W) (pre : List (SName × Stage)),
-    Run p w pre (cleanupPath stack) → CInv p (runCleanups stack w)
-  | [], w, pre, h => by
-      simp only [runCleanups]
-      exact Or.inr (finishChain_fin (run_frame (frame_stack []) h))
-  | (i, c) :: rest, w, pre, h => by
-      have h' : Run p (updU (fun u => { u with stack := rest }) w) pre ((SName.cleanup i, c) :: cleanupPath rest) :=
-        run_frame (frame_stack rest) h
-      simp only [runCleanups]
-      cases hs : statusOf c.beh with
-      | completed r =>
-        simp only []
-        exact runCleanups_cinv rest _ _ (launch_completed h' r hs _ (noteOK_cleanup r))
-      | pending =>
-        simp only []
-        have hp := launch_pending h' hs
-        refine Or.inl (susp_of_pend hp _ (frame_pos .cleanup) rfl ?_ (by intro h; cases h))
-        simp [future, launch_stack]
+theorem isMain_cleanup (i : Nat) : isMain (.cleanup i) = false := rfl
 
-theorem afterRun_cinv {p : Prog} {w : W} {pre : List (SName × Stage)} (h : Run p w pre (cleanupPath w.u.stack)) :
-    CInv p (runCleanups w.u.stack w) := runCleanups_cinv _ _ _ h
+theorem runCleanups_cinv {p : Prog} : ∀ (n : Nat) (w : W) (pre : List (SName × Stage)), stackSize w.u.stack < n →
+    Run p w pre (expand n w.u.nextCleanup w.u.stack) → CInv p (runCleanups n w)
+  | 0, _, _, hn, _ => by omega
+  | n + 1, w, pre, hn, h => by
+      unfold runCleanups
+      split
+      · rename_i hst
+        rw [hst] at h
+        exact Or.inr (finishChain_fin (by simpa [expand] using h))
+      · rename_i i c rest hst
+        obtain ⟨w1, hw1⟩ : ∃ w1 : W, w1 = updU (fun u => Chain.register c.cleanups { u with stack := rest }) w := ⟨_, rfl⟩
+        have hreg := register_stack c.cleanups { w.u with stack := rest }
+        have hst1 : w1.u.stack = (number w.u.nextCleanup c.cleanups).reverse ++ rest := by rw [hw1]; exact hreg.1
+        have hnx1 : w1.u.nextCleanup = w.u.nextCleanup + c.cleanups.length := by rw [hw1]; exact hreg.2
+        have hz1 : stackSize w1.u.stack = sizeL c.cleanups + stackSize rest := by
+          rw [hst1, stackSize_append, stackSize_reverse, stackSize_number]
+        have hsz := size_eq c
+        have hsize : stackSize w.u.stack = c.size + stackSize rest := by rw [hst]; simp [stackSize]
+        have hfr : Frame (fun u => Chain.register c.cleanups { u with stack := rest }) := by
+          have f1 := frame_register c.cleanups
+          exact ⟨fun u => f1.stages _, fun u => f1.forced _, fun u => f1.logged _, fun u => f1.dropped _, fun u => f1.excs _,
+            fun u => f1.fails _, fun u => f1.lastExc _, fun u => f1.observers _⟩
+        have h' : Run p w1 pre ((SName.cleanup i, c) :: expand n w1.u.nextCleanup w1.u.stack) := by
+          rw [hw1]
+          have := run_frame hfr h
+          rw [hst] at this
+          simpa [expand, hreg.1, hreg.2] using this
+        simp only [← hw1]
+        have hls := launch_stack (.cleanup i) c w1
+        cases hs : statusOf c.beh with
+        | completed r =>
+          simp only []
+          have hr := launch_completed h' r hs _ (noteOK_cleanup r) (isMain_cleanup i)
+          apply runCleanups_cinv n _ _ (by simp only [updU_u, (noteCleanup_stack _ _).1, hls.1]; omega)
+          simpa [(noteCleanup_stack _ _).1, (noteCleanup_stack _ _).2, hls.1, hls.2] using hr
+        | pending =>
+          simp only []
+          have hp := launch_pending h' hs
+          refine Or.inl (susp_of_pend hp _ (frame_pos .cleanup) rfl ?_ (by intro h; cases h))
+          simp only [future, cleanupsOf, hls.1, hls.2]
+          exact expand_fuel _ _ _ _ (by omega) (by omega)
+
+theorem cleanUp_cinv {p : Prog} {w : W} {pre : List (SName × Stage)} (h : Run p w pre (cleanupsOf w.u)) :
+    CInv p (cleanUp w) := runCleanups_cinv _ _ _ (Nat.lt_succ_self _) h
 
 theorem startTearDown_cinv {p : Prog} {w : W} {pre : List (SName × Stage)}
-    (h : Run p w pre ((SName.tearDown, p.tearDown.stage) :: cleanupPath (Chain.register p.tearDown.cleanups w.u).stack)) :
+    (h : Run p w pre ((SName.tearDown, p.tearDown) :: cleanupsOf (Chain.register p.tearDown.cleanups w.u))) :
     CInv p (startTearDown p w) := by
   have h' := run_frame (frame_register p.tearDown.cleanups) h
+  have hls := launch_stack .tearDown p.tearDown (updU (Chain.register p.tearDown.cleanups) w)
   simp only [startTearDown]
-  cases hs : statusOf p.tearDown.stage.beh with
+  cases hs : statusOf p.tearDown.beh with
   | completed r =>
     simp only [afterTearDown]
-    have hr := launch_completed h' r hs _ (noteOK_main r)
-    apply afterRun_cinv
-    simpa [noteMain_stack, launch_stack] using hr
+    have hr := launch_completed h' r hs _ (noteOK_main r) rfl
+    apply cleanUp_cinv
+    rw [cleanupsOf_congr _ (Chain.register p.tearDown.cleanups w.u)
+      (by simp [(noteMain_stack _ _).1, hls.1]) (by simp [(noteMain_stack _ _).2, hls.2])]
+    exact hr
   | pending =>
     simp only []
     have hp := launch_pending h' hs
     refine Or.inl (susp_of_pend hp _ (frame_pos .tearDown) rfl ?_ (by intro h; cases h))
-    simp [future, launch_stack]
+    simp only [future]
+    exact cleanupsOf_congr _ _ (by simp [hls.1]) (by simp [hls.2])
 
 theorem startBody_cinv {p : Prog} {w : W} {pre : List (SName × Stage)}
-    (h : Run p w pre ((SName.body, p.body.stage) :: (SName.tearDown, p.tearDown.stage) ::
-      cleanupPath (Chain.register p.tearDown.cleanups (Chain.register p.body.cleanups w.u)).stack)) :
+    (h : Run p w pre ((SName.body, p.body) :: (SName.tearDown, p.tearDown) ::
+      cleanupsOf (Chain.register p.tearDown.cleanups (Chain.register p.body.cleanups w.u)))) :
     CInv p (startBody p w) := by
   have h' := run_frame (frame_register p.body.cleanups) h
-  have hfr := launch_frame .body p.body.stage (updU (Chain.register p.body.cleanups) w)
+  have hls := launch_stack .body p.body (updU (Chain.register p.body.cleanups) w)
   simp only [startBody]
-  cases hs : statusOf p.body.stage.beh with
+  cases hs : statusOf p.body.beh with
   | completed r =>
     simp only [afterBody]
-    have hr := launch_completed h' r hs _ (noteOK_main r)
+    have hr := launch_completed h' r hs _ (noteOK_main r) rfl
     apply startTearDown_cinv
     have hc := register_congr p.tearDown.cleanups
-      (updU (Chain.noteMain r) (launch .body p.body.stage (updU (Chain.register p.body.cleanups) w))).u
+      (updU (Chain.noteMain r) (launch .body p.body (updU (Chain.register p.body.cleanups) w))).u
       (Chain.register p.body.cleanups w.u)
-      (by simp [noteMain_stack, hfr.2.1])
-      (by cases r <;> simp [Chain.noteMain, Chain.caught, hfr.2.2])
-    rw [hc.1]
+      (by simp [(noteMain_stack _ _).1, hls.1]) (by simp [(noteMain_stack _ _).2, hls.2])
+    rw [cleanupsOf_congr _ _ hc.1 hc.2]
     exact hr
   | pending =>
     simp only []
     have hp := launch_pending h' hs
     refine Or.inl (susp_of_pend hp _ (frame_pos .body) rfl ?_ (by intro h; cases h))
     have hc := register_congr p.tearDown.cleanups
-      ({ (launch .body p.body.stage (updU (Chain.register p.body.cleanups) w)).u with pos := .body })
-      (Chain.register p.body.cleanups w.u) (by simp [hfr.2.1]) (by simp [hfr.2.2])
+      ({ (launch .body p.body (updU (Chain.register p.body.cleanups) w)).u with pos := .body })
+      (Chain.register p.body.cleanups w.u) (by simp [hls.1]) (by simp [hls.2])
     simp only [future]
-    rw [hc.1]
+    rw [cleanupsOf_congr _ _ hc.1 hc.2]
 
 /-- the futures the chain has when `setUp` is over, by its result -/
 theorem afterSetUp_cinv {p : Prog} {w : W} {pre : List (SName × Stage)} (r : Option Exc)
-    (hr : r.isSome = true ↔ behOk p.setUp.stage.beh = false)
-    (h : ∀ f, NoteOK r f → Run p (updU f w) pre
-      (if behOk p.setUp.stage.beh then
-        (SName.body, p.body.stage) :: (SName.tearDown, p.tearDown.stage) ::
-          cleanupPath (Chain.register p.tearDown.cleanups (Chain.register p.body.cleanups w.u)).stack
-       else cleanupPath w.u.stack)) :
+    (hr : r.isSome = true ↔ behOk p.setUp.beh = false)
+    (h : ∀ f, NoteOK r true f → Run p (updU f w) pre
+      (if behOk p.setUp.beh then
+        (SName.body, p.body) :: (SName.tearDown, p.tearDown) ::
+          cleanupsOf (Chain.register p.tearDown.cleanups (Chain.register p.body.cleanups w.u))
+       else cleanupsOf w.u)) :
     CInv p (afterSetUp p r w) := by
   cases r with
   | some k =>
-    have hb : behOk p.setUp.stage.beh = false := hr.mp rfl
+    have hb : behOk p.setUp.beh = false := hr.mp rfl
     have := h (Chain.noteMain (some k)) (noteOK_main _)
     simp only [hb, Bool.false_eq_true, if_false] at this
     simp only [afterSetUp]
-    exact afterRun_cinv this
+    exact cleanUp_cinv this
   | none =>
-    have hb : behOk p.setUp.stage.beh = true := by
-      cases hb' : behOk p.setUp.stage.beh with
+    have hb : behOk p.setUp.beh = true := by
+      cases hb' : behOk p.setUp.beh with
       | true => rfl
       | false => have := hr.mpr hb'; cases this
     have := h (Chain.noteMain none) (noteOK_main _)
@@ -1374,52 +1556,59 @@ theorem afterSetUp_cinv {p : Prog} {w : W} {pre : List (SName × Stage)} (r : Op
 theorem startSetUp_cinv {p : Prog} {w : W} (h : Run p w [] (path p)) (hs : w.u.stack = []) (hn : w.u.nextCleanup = 0) :
     CInv p (startSetUp p w) := by
   have hpath := path_eq p w.u hs hn
-  have h0 : Run p w [] ((SName.setUp, p.setUp.stage) ::
-      (if behOk p.setUp.stage.beh then
-        (SName.body, p.body.stage) :: (SName.tearDown, p.tearDown.stage) ::
-          cleanupPath (Chain.register p.tearDown.cleanups
-            (Chain.register p.body.cleanups (Chain.register p.setUp.cleanups w.u))).stack
-       else cleanupPath (Chain.register p.setUp.cleanups w.u).stack)) := by
+  have h0 : Run p w [] ((SName.setUp, p.setUp) ::
+      (if behOk p.setUp.beh then
+        (SName.body, p.body) :: (SName.tearDown, p.tearDown) ::
+          cleanupsOf (Chain.register p.tearDown.cleanups
+            (Chain.register p.body.cleanups (Chain.register p.setUp.cleanups w.u)))
+       else cleanupsOf (Chain.register p.setUp.cleanups w.u))) := by
     rw [← hpath]; exact h
   have h' := run_frame (frame_register p.setUp.cleanups) h0
-  have hfr := launch_frame .setUp p.setUp.stage (updU (Chain.register p.setUp.cleanups) w)
+  have hls := launch_stack .setUp p.setUp (updU (Chain.register p.setUp.cleanups) w)
   -- the futures expressed by the chain state after the launch (same stack and counter)
   have hcongr : ∀ c' : Chain, c'.stack = (Chain.register p.setUp.cleanups w.u).stack →
       c'.nextCleanup = (Chain.register p.setUp.cleanups w.u).nextCleanup →
-      (if behOk p.setUp.stage.beh then
-        (SName.body, p.body.stage) :: (SName.tearDown, p.tearDown.stage) ::
-          cleanupPath (Chain.register p.tearDown.cleanups (Chain.register p.body.cleanups c')).stack
-       else cleanupPath c'.stack) =
-      (if behOk p.setUp.stage.beh then
-        (SName.body, p.body.stage) :: (SName.tearDown, p.tearDown.stage) ::
-          cleanupPath (Chain.register p.tearDown.cleanups
-            (Chain.register p.body.cleanups (Chain.register p.setUp.cleanups w.u))).stack
-       else cleanupPath (Chain.register p.setUp.cleanups w.u).stack) := by
+      (if behOk p.setUp.beh then
+        (SName.body, p.body) :: (SName.tearDown, p.tearDown) ::
+          cleanupsOf (Chain.register p.tearDown.cleanups (Chain.register p.body.cleanups c'))
+       else cleanupsOf c') =
+      (if behOk p.setUp.beh then
+        (SName.body, p.body) :: (SName.tearDown, p.tearDown) ::
+          cleanupsOf (Chain.register p.tearDown.cleanups
+            (Chain.register p.body.cleanups (Chain.register p.setUp.cleanups w.u)))
+       else cleanupsOf (Chain.register p.setUp.cleanups w.u)) := by
     intro c' h1 h2
     have hb := register_congr p.body.cleanups c' (Chain.register p.setUp.cleanups w.u) h1 h2
     have ht := register_congr p.tearDown.cleanups _ _ hb.1 hb.2
-    rw [ht.1, h1]
+    rw [cleanupsOf_congr _ _ ht.1 ht.2, cleanupsOf_congr c' _ h1 h2]
   simp only [startSetUp]
-  cases hst : statusOf p.setUp.stage.beh with
+  cases hst : statusOf p.setUp.beh with
   | completed r =>
     simp only []
     apply afterSetUp_cinv r
-    · cases hb : p.setUp.stage.beh <;> simp [statusOf, hb] at hst <;> subst hst <;> simp [behOk]
+    · cases hb : p.setUp.beh <;> simp [statusOf, hb] at hst <;> subst hst <;> simp [behOk]
     · intro f hf
-      have hr := launch_completed h' r hst f hf
-      rw [hcongr _ hfr.2.1 hfr.2.2]
+      have hr := launch_completed h' r hst f hf rfl
+      rw [hcongr _ hls.1 hls.2]
       simpa using hr
   | pending =>
     simp only []
     have hp := launch_pending h' hst
     refine Or.inl (susp_of_pend hp _ (frame_pos .setUp) rfl ?_ (fun _ => rfl))
     simp only [future]
-    exact (hcongr _ (by simp [hfr.2.1]) (by simp [hfr.2.2])).symm
+    exact (hcongr _ (by simp [hls.1]) (by simp [hls.2])).symm
 
-theorem book_note {pre : List (SName × Stage)} {c : Chain} {r : Option Exc} {f : Chain → Chain} (hf : NoteOK r f)
-    (h : Book pre c) : Book pre (f c) :=
-  ⟨by rw [hf.forced]; exact h.forced, by rw [hf.logged]; exact h.logged, by rw [hf.dropped]; exact h.dropped,
-   hf.excs c h.excs, by rw [hf.stages, hf.observers]; exact h.obs⟩
+theorem book_note {pre : List (SName × Stage)} {c : Chain} {r : Option Exc} {main : Bool} {f : Chain → Chain}
+    (hf : NoteOK r main f) (h : Book pre c) (hr : r = some .ki → ∃ x ∈ pre, hasKI x.2.beh = true) : Book pre (f c) := by
+  obtain ⟨k1, k2⟩ := ki_note (pre := pre) (c := c) hf
+    (by
+      rintro (hk | hk | hk)
+      · exact h.kiSome (Or.inl hk)
+      · exact h.kiSome (Or.inr hk)
+      · exact hr hk)
+    (fun x hx h1 h2 => Or.inl (h.kiMain x hx h1 h2))
+  exact ⟨by rw [hf.forced]; exact h.forced, by rw [hf.logged]; exact h.logged, by rw [hf.dropped]; exact h.dropped,
+   hf.excs c h.excs, by rw [hf.stages, hf.observers]; exact h.obs, k1, k2⟩
 
 /-- **the pending stage's Deferred fires**: the chain resumes from a suspended state -/
 theorem resume_cinv {p : Prog} {w0 : W} (hs : Susp p w0) (hi : Inv1 p w0) (t l : Nat) (r : Option Exc)
@@ -1451,11 +1640,17 @@ theorem resume_cinv {p : Prog} {w0 : W} (hs : Susp p w0) (hi : Inv1 p w0) (t l :
     have hwcalls : wp.calls = rest := by rw [hwp]; rfl
     rw [← hwp]
     have hs0 := hi.sorted; rw [hc] at hs0
-    have key : ∀ f, NoteOK r f → Run p (updU f wp) (pre ++ [(n, st)]) (future p w0.u) := by
-      intro f hf
+    have hrki : r = some .ki → ∃ x ∈ pre ++ [(n, st)], hasKI x.2.beh = true := by
+      intro hk
+      refine ⟨(n, st), by simp, ?_⟩
+      rw [hres] at hk
+      cases hb : st.beh <;> simp [hb, resOf] at hk
+      subst hk; rfl
+    have key : ∀ (main : Bool) f, NoteOK r main f → Run p (updU f wp) (pre ++ [(n, st)]) (future p w0.u) := by
+      intro main f hf
       refine ⟨hpath, by simp [hf.stages, hwu, hlen], by simp [hf.stages, hwu, hseq],
         by simp [hf.stages, hwu, hov, hwnow, ← hnow, hto], by simp [hwcalls, hrest],
-        by simpa [hwu] using book_note hf hbook, ?_, by simpa [hwsp] using hunrec, ?_, ?_⟩
+        by simpa [hwu] using book_note hf hbook hrki, ?_, by simpa [hwsp] using hunrec, ?_, ?_⟩
       · simp only [updU_u, hwu]
         rw [hf.fails]
         constructor
@@ -1509,26 +1704,28 @@ theorem resume_cinv {p : Prog} {w0 : W} (hs : Susp p w0) (hi : Inv1 p w0) (t l :
       have hst := hsu hpos'
       apply afterSetUp_cinv r (by rw [← hst]; exact hrok)
       intro f hf
-      have := key f hf
+      have := key _ f hf
       simpa [future, hpos', hwu] using this
     | body =>
       simp only [afterBody]
       apply startTearDown_cinv
-      have := key _ (noteOK_main r)
+      have := key _ _ (noteOK_main r)
       have hcg := register_congr p.tearDown.cleanups (updU (Chain.noteMain r) wp).u w0.u
-        (by simp [noteMain_stack, hwu]) (by cases r <;> simp [Chain.noteMain, Chain.caught, hwu])
-      rw [hcg.1]
+        (by simp [(noteMain_stack _ _).1, hwu]) (by simp [(noteMain_stack _ _).2, hwu])
+      rw [cleanupsOf_congr _ _ hcg.1 hcg.2]
       simpa [future, hpos'] using this
     | tearDown =>
       simp only [afterTearDown]
-      apply afterRun_cinv
-      have := key _ (noteOK_main r)
-      simpa [future, hpos', noteMain_stack, hwu] using this
+      apply cleanUp_cinv
+      have := key _ _ (noteOK_main r)
+      rw [cleanupsOf_congr _ w0.u (by simp [(noteMain_stack _ _).1, hwu]) (by simp [(noteMain_stack _ _).2, hwu])]
+      simpa [future, hpos'] using this
     | cleanup =>
       simp only [afterCleanup]
-      apply afterRun_cinv
-      have := key _ (noteOK_cleanup r)
-      simpa [future, hpos', noteCleanup_stack, hwu] using this
+      apply cleanUp_cinv
+      have := key _ _ (noteOK_cleanup r)
+      rw [cleanupsOf_congr _ w0.u (by simp [(noteCleanup_stack _ _).1, hwu]) (by simp [(noteCleanup_stack _ _).2, hwu])]
+      simpa [future, hpos'] using this
 
 /-! ### the chain invariant through the loop -/
 
@@ -1537,7 +1734,7 @@ theorem future_congr (p : Prog) (c c' : Chain) (hpos : c.pos = c'.pos) (hs : c.s
   have h1 := register_congr p.body.cleanups c c' hs hn
   have h2 := register_congr p.tearDown.cleanups _ _ h1.1 h1.2
   have h3 := register_congr p.tearDown.cleanups c c' hs hn
-  simp only [future, hpos, h2.1, h3.1, hs]
+  simp only [future, hpos, cleanupsOf_congr _ _ h2.1 h2.2, cleanupsOf_congr _ _ h3.1 h3.2, cleanupsOf_congr c c' hs hn]
 
 theorem future_realStops (p : Prog) (c : Chain) (k : Nat) : future p { c with realStops := k } = future p c :=
   future_congr p _ _ rfl rfl rfl
@@ -1547,7 +1744,7 @@ success alone keeps the chain invariant -/
 theorem cinv_congr {p : Prog} {w w' : W} (h : CInv p w) (k : Nat) (hu : w'.u = { w.u with realStops := k })
     (hsd : sdOf w'.calls = sdOf w.calls) (hsucc : w'.sp.success = w.sp.success) : CInv p w' := by
   have hb : ∀ pre, Book pre w.u → Book pre w'.u := by
-    intro pre hb; rw [hu]; exact ⟨hb.forced, hb.logged, hb.dropped, hb.excs, hb.obs⟩
+    intro pre hb; rw [hu]; exact ⟨hb.forced, hb.logged, hb.dropped, hb.excs, hb.obs, hb.kiMain, hb.kiSome⟩
   rcases h with h | h
   · obtain ⟨pre, n, st, h1, h2, h3, h4, h5, h6, h7, h8, h9, h10, h11⟩ := h.ex
     refine Or.inl ⟨pre, n, st, ?_, ?_, ?_, h4, ?_, ?_, ?_, ?_, hb _ h9, ?_, by rw [hsucc]; exact h11⟩
